@@ -11,7 +11,7 @@ from .. import recipe as R
 from ..common import pages_label, run_recipe
 from ..engine import Result
 from .. import findings as findings_mod
-from ..pagemodel import analyze, group_values, headings_brought, reservation
+from ..pagemodel import analyze, group_values, heading_lines, headings_brought, reservation
 from .c03 import overflows
 
 ID = "C04"
@@ -65,6 +65,8 @@ def _case(draw):
     heights = [draw(st.sampled_from([1, 1, 1, 2, 3])) if draw(st.integers(0, 9)) < 4 else 1 for _ in range(n)]
     levels = draw(st.integers(1, 3)) if "page_by" in strat else 0
     groups = draw(_keys(n, levels, "@G", dividers=draw(st.integers(0, 9)) < 3)) if levels else None
+    if levels and strat == "page_by" and draw(st.integers(0, 9)) < 3:
+        groups = draw(pgen.lengthen_groups(groups))      # headings that wrap to 2-3 lines across the table
     subline = None
     if strat.startswith("subline"):
         k = draw(st.sampled_from([1, 1, 2, 3]))
@@ -208,7 +210,7 @@ def check(case) -> Result:
         i, j = a.data[-1].index, b.data[0].index
         res.checks += 1
         forced = (bool(sb_keys[i]) and sb_keys[i] != sb_keys[j]) or (new_page and bool(pb_keys[i]) and pb_keys[i] != pb_keys[j])
-        need = b.data[0].weight + (headings_brought(pb_keys[i], pb_keys[j]) if (spanning and pb_keys[i]) else 0)
+        need = b.data[0].weight + (headings_brought(pb_keys[i], pb_keys[j], heading_lines) if (spanning and pb_keys[i]) else 0)
         fits = a.body_fill() + need <= nrow - Rsv
         if forced:
             forced_breaks += 1
